@@ -7,6 +7,12 @@ TB = ("Trusted: Coq 8.16.1 kernel (vm_compute, no native_compute; no axioms: eve
       "sync.Pool/bufio; the translator tools/gotrans; extraction (ExtrOcamlBasic only) + ocaml/zmodel.ml; the Go harness and its "
       "blob-decoding co-process; for vectors the pure-Go stand-in engine fakefaiss. ")
 CLAIMED = {
+ "C10": ("Coq: C10_history_independent (pooled working memory with whole backing arrays; induction over build histories with the 'clear within capacity' invariant); correspondence: build histories with GC off vs extracted spec, extracted pooled-memory model and extracted parser; concurrent builds under the race detector",
+         "The theorem covers every history (incl. failed builds) and every choice of pooled object; the correspondence replays histories (large-then-small, many-fields-then-few, synonyms-then-plain, empty, validator-rejected) in one process with the GC off so the pool really reuses, comparing every build with the spec of its batch alone, with the extracted reuse model on the abstracted history, and its bytes/CRC through the extracted parser; then 2-8 goroutines build concurrently under -race.",
+         "the model covers the members that are read before written (IncludeDocValues, pooled postings bitmaps); the other reusable members are overwritten before use (DESIGN.md 6 C10) and are covered by the correspondence only; data races observed, not proved.", "6 C10"),
+ "C11": ("Coq: C11_exclusive (any interleaving of disciplined pool operations keeps every scratch object with at most one owner) + refutation of the pinned early-stop path; correspondence: 2-16 reader goroutines + concurrent merges on one segment vs sequential answers under the race detector, byte-stability inside visitor callbacks, pool probe vs extracted pool model",
+         "The ownership theorem holds for all schedules; concurrent executions are sampled (40 quick / 800 thorough schedules) with every call's answer compared with its sequential answer, visitor bytes checked for stability during the callback, merges running concurrently, and the pool probed for duplicate hand-outs after histories of early-stopped visits.",
+         "'no data race' and 'answers equal sequential answers under all interleavings' are observed on sampled schedules only (partial, DESIGN.md 10).", "6 C11"),
  "C07": ("Coq: refinement theorems C07_clean / C07_filtered / C07_single_hit (iterator machine = specification for every call sequence, chunk size, flags, exclusion set) ; correspondence: bounded-exhaustive and random Next/Advance sequences, reuse histories and ReplaceActual against the extracted machine",
          "The theorems cover every postings list, chunk size > 0, flag combination, exclusion set and every sequence of Next/Advance targets (by induction with the `Ready` invariant over the two chunk streams). The extracted machine is run call by call against the real iterator: exhaustively for all P, E over N documents x chunk sizes x legal sequences (quick N=4,L=2 strided; thorough N=6,L=3), on random larger instances, through merges (single-hit encoding), with preallocated objects reused across terms / absent terms / absent fields / segments, and after ReplaceActual.",
          "ReplaceActual-with-subset and independence from leftovers of reused objects are decided by the correspondence only; the link from 'remaining entries of the chunk' to bytes is the codec lemmas of C01.", "6 C07, Appendix A"),
